@@ -40,7 +40,7 @@ func parseFor(s string) ([]string, string, error) {
 // propagateTemplateAttributes recursively finds template elements with bound attributes
 // and propagates their evaluated values from the current scope to the parent scope.
 // This allows stateful attributes like :printed="printed+1" to persist across loop iterations.
-func (v *Vue) propagateTemplateAttributes(ctx VueContext, node *html.Node) {
+func (v *Vue) propagateTemplateAttributes(ctx VueContext, node *html.Node, loopVars []string) {
 	if node == nil {
 		return
 	}
@@ -57,6 +57,11 @@ func (v *Vue) propagateTemplateAttributes(ctx VueContext, node *html.Node) {
 			} else {
 				continue
 			}
+			// The loop's own variables end with the loop (a shadowed outer variable has its
+			// value again), and :key is the list-rendering hint, not a variable
+			if boundName == "key" || (len(loopVars) > 0 && boundName == loopVars[0]) || (len(loopVars) > 1 && boundName == loopVars[1]) {
+				continue
+			}
 			// Get the value that was set in the current scope and propagate to parent
 			if val, ok := ctx.stack.Lookup(boundName); ok {
 				// Pop current scope, set in parent, push back
@@ -71,7 +76,7 @@ func (v *Vue) propagateTemplateAttributes(ctx VueContext, node *html.Node) {
 
 	// Recursively check children for template elements
 	for child := node.FirstChild; child != nil; child = child.NextSibling {
-		v.propagateTemplateAttributes(ctx, child)
+		v.propagateTemplateAttributes(ctx, child, loopVars)
 	}
 }
 
@@ -145,7 +150,7 @@ func (v *Vue) evalFor(ctx VueContext, node *html.Node, expr string, depth int) (
 
 		// After evaluation, propagate bound attributes from template back to parent scope
 		// This allows stateful attributes like :printed="printed+1" to persist across iterations
-		v.propagateTemplateAttributes(ctx, iterNode)
+		v.propagateTemplateAttributes(ctx, iterNode, vars)
 
 		ctx.stack.Pop()
 		result = append(result, evaluated...)
